@@ -497,6 +497,45 @@ func ruleControlLayout(p *Prog, r *Report) {
 	// encoder: 0,0,0,10 then the header
 	if fn := p.MustFunc(r, "ast", "(*ControlMessage).ToBytes"); fn != nil {
 		key := rule + ":ast.(*ControlMessage).ToBytes"
+		// by evaluation first: ten distinct header bytes
+		byEval := func() bool {
+			ein := NewInterp(p)
+			ein.PathBind["p0.header"] = Val{K: KSlice, S: "p0.header", Len: 10}
+			want := []int64{0, 0, 0, 10}
+			for i := 0; i < 10; i++ {
+				b := int64(0xF0 - 7*i)
+				ein.PathBind[fmt.Sprintf("p0.header[%d]", i)] = int64Val(b)
+				want = append(want, b)
+			}
+			eout := ein.Run(fn, defaultArgs(fn), nil)
+			if eout.Frame != nil && len(ein.Stuck) == 0 {
+				if rets := eout.Frame.ReturnVals(); len(rets) == 1 && len(rets[0]) == 1 && rets[0][0].K == KSlice && rets[0][0].Len >= 0 {
+					rv := rets[0][0]
+					var got []string
+					concrete := true
+					for i := 0; i < rv.Len && i < 32; i++ {
+						e := ein.Elem(rv, i, typByte)
+						if e.K != KInt {
+							concrete = false
+						}
+						got = append(got, e.String())
+					}
+					if concrete {
+						var ws []string
+						for _, w := range want {
+							ws = append(ws, fmt.Sprint(w))
+						}
+						if strings.Join(got, ",") == strings.Join(ws, ",") {
+							r.ok(rule, key, p.Pos(fn.Pos()), "evaluated on ten distinct header bytes: encodes to 00 00 00 0A followed by exactly those ten bytes, in order")
+						} else {
+							r.bad(rule, key, p.Pos(fn.Pos()), fmt.Sprintf("a control message with the header bytes %s encodes to %s; expected the length 00 00 00 0A followed by the ten header bytes", strings.Join(ws[4:], ","), strings.Join(got, ",")))
+						}
+						return true
+					}
+				}
+			}
+			return false
+		}()
 		in := symInterp(p)
 		out := in.Run(fn, defaultArgs(fn), nil)
 		rets := out.Frame.ReturnVals()
@@ -535,7 +574,9 @@ func ruleControlLayout(p *Prog, r *Report) {
 			}
 			good = good && whole
 		}
-		if good {
+		if byEval {
+			// decided above
+		} else if good {
 			r.ok(rule, key, p.Pos(fn.Pos()), "encodes to 00 00 00 0A followed by the whole header")
 		} else {
 			r.bad(rule, key, p.Pos(fn.Pos()), "a control message does not encode to the length 00 00 00 0A followed by its 10 header bytes: "+desc)
